@@ -145,6 +145,16 @@ Theorem C10_every_edge_in_exactly_one_accepted_clique :
 Proof. exact mpcc_cover_exact. Qed.
 Print Assumptions C10_every_edge_in_exactly_one_accepted_clique.
 
+(* greedy-maximality on the cover (DESIGN: C10_greedy): no larger motif is sacrificed for smaller ones *)
+Theorem C10_greedy :
+  forall (g : graph) (ms : nat) (sh : list (list nat)),
+    valid_graph g = true -> valid_sched g sh = true ->
+    forall K, CliqueP g K -> 2 <= length K -> Within ms (length K) ->
+      exists c' u v, In c' (mpcc_cover g ms (mpcc_order sh)) /\ inpair K u v /\ inpair c' u v /\
+                     length K <= length c'.
+Proof. exact mpcc_cover_greedy. Qed.
+Print Assumptions C10_greedy.
+
 Theorem C10_working_copy_ends_empty :
   forall (g : graph) (ms : nat) (sh : list (list nat)),
     valid_graph g = true -> (ms = 0 \/ 2 <= ms) -> valid_sched g sh = true ->
